@@ -8,6 +8,7 @@
   named `*_aux`.
 -/
 import PolyVerif.Gen.Transform
+import PolyVerif.Model.AabbFromPoints
 import PolyVerif.Lemmas.RealScalar
 import Mathlib.Data.Matrix.Basic
 import Mathlib.LinearAlgebra.Matrix.Determinant.Basic
@@ -340,6 +341,56 @@ example : (RotationTo (⟨1, 0, 0⟩ : P3) ⟨-1, 0, 0⟩).Rotate ⟨1, 0, 0⟩ 
   apply quat_rotationTo_antiparallel
   · simp [V3.Dot]
   · simp [V3.Dot, rotThreshold]; norm_num
+
+
+/-! ### NewAABBFromPoints (hand model, corresponded) -/
+
+private theorem foldl_min_le (p : P3) (ps : List P3) :
+    (fromPointsMin p ps).x ≤ p.x ∧ (fromPointsMin p ps).y ≤ p.y ∧ (fromPointsMin p ps).z ≤ p.z ∧
+    ∀ q ∈ ps, (fromPointsMin p ps).x ≤ q.x ∧ (fromPointsMin p ps).y ≤ q.y ∧ (fromPointsMin p ps).z ≤ q.z := by
+  unfold fromPointsMin
+  induction ps generalizing p with
+  | nil => simp
+  | cons v vs ih =>
+    simp only [List.foldl_cons]
+    obtain ⟨hx, hy, hz, hall⟩ := ih ⟨min v.x p.x, min v.y p.y, min v.z p.z⟩
+    refine ⟨hx.trans (min_le_right _ _), hy.trans (min_le_right _ _), hz.trans (min_le_right _ _), ?_⟩
+    intro q hq
+    rcases List.mem_cons.mp hq with rfl | hq
+    · exact ⟨hx.trans (min_le_left _ _), hy.trans (min_le_left _ _), hz.trans (min_le_left _ _)⟩
+    · exact hall q hq
+
+private theorem foldl_max_ge (p : P3) (ps : List P3) :
+    p.x ≤ (fromPointsMax p ps).x ∧ p.y ≤ (fromPointsMax p ps).y ∧ p.z ≤ (fromPointsMax p ps).z ∧
+    ∀ q ∈ ps, q.x ≤ (fromPointsMax p ps).x ∧ q.y ≤ (fromPointsMax p ps).y ∧ q.z ≤ (fromPointsMax p ps).z := by
+  unfold fromPointsMax
+  induction ps generalizing p with
+  | nil => simp
+  | cons v vs ih =>
+    simp only [List.foldl_cons]
+    obtain ⟨hx, hy, hz, hall⟩ := ih ⟨max v.x p.x, max v.y p.y, max v.z p.z⟩
+    refine ⟨(le_max_right _ _).trans hx, (le_max_right _ _).trans hy, (le_max_right _ _).trans hz, ?_⟩
+    intro q hq
+    rcases List.mem_cons.mp hq with rfl | hq
+    · exact ⟨(le_max_left _ _).trans hx, (le_max_left _ _).trans hy, (le_max_left _ _).trans hz⟩
+    · exact hall q hq
+
+theorem aabb_fromPoints_min (p : P3) (ps : List P3) : (fromPoints p ps).Min = fromPointsMin p ps := by
+  ext <;> simp [fromPoints, geometry.NewAABB, AABB.Min, V3.Sub, V3.Add, V3.Scale] <;> ring
+theorem aabb_fromPoints_max (p : P3) (ps : List P3) : (fromPoints p ps).Max = fromPointsMax p ps := by
+  ext <;> simp [fromPoints, geometry.NewAABB, AABB.Max, V3.Sub, V3.Add, V3.Scale] <;> ring
+
+/-- the box built from a non-empty list of points contains every one of them -/
+theorem aabb_fromPoints_contains_all (p : P3) (ps : List P3) (q : P3) (hq : q ∈ p :: ps) :
+    (fromPoints p ps).Contains q = true := by
+  rw [aabb_contains_iff, aabb_fromPoints_min, aabb_fromPoints_max]
+  obtain ⟨mx, my, mz, mall⟩ := foldl_min_le p ps
+  obtain ⟨Mx, My, Mz, Mall⟩ := foldl_max_ge p ps
+  rcases List.mem_cons.mp hq with rfl | hq
+  · exact ⟨mx, my, mz, Mx, My, Mz⟩
+  · obtain ⟨a1, a2, a3⟩ := mall q hq
+    obtain ⟨b1, b2, b3⟩ := Mall q hq
+    exact ⟨a1, a2, a3, b1, b2, b3⟩
 
 
 /-! ### non-vacuity: concrete instances of the hypotheses used above -/
